@@ -28,26 +28,37 @@ def initial_states():
     return out
 
 
-def build(state, body):
+NAMESETS = [
+    {"old": "old", "new": "new", "other": "other"},
+    # the target is given decomposed (NFD) while a bystander is named with the composed (NFC) form: different octets, different scripts
+    {"old": "r\u00e8gles", "new": "cafe\u0301", "other": "caf\u00e9"},
+    {"old": "old", "new": "New", "other": "new"},
+]
+
+
+def build(state, body, names=NAMESETS[0]):
     old, new, other = state
     store = {}
     active = None
     # insertion order varied by state so that listing order differs
     if other != "absent":
-        store["other"] = b"discard;\r\n"
+        store[names["other"]] = b"discard;\r\n"
     if old != "absent":
-        store["old"] = body
+        store[names["old"]] = body
     if new != "absent":
-        store["new"] = b"redirect \"x\";\r\n"
+        store[names["new"]] = b"redirect \"x\";\r\n"
     for n, st in (("old", old), ("new", new), ("other", other)):
         if st == "active":
-            active = n
+            active = names[n]
     return store, active
 
 
-def judge(before, active_before, srv, o):
-    after = dict(srv.store)
-    active_after = srv.active
+def judge(before, active_before, srv, o, names=NAMESETS[0]):
+    inv = {v: k for k, v in names.items()}
+    before = {inv.get(k, k): v for k, v in before.items()}
+    after = {inv.get(k, k): v for k, v in srv.store.items()}
+    active_before = inv.get(active_before, active_before)
+    active_after = inv.get(srv.active, srv.active)
     if o.kind == "ret":
         if o.value not in (True, False):
             return ("outcome", "returned %r (only True / False / Error are allowed)" % (o.value,))
@@ -83,13 +94,14 @@ def judge(before, active_before, srv, o):
     return None
 
 
-def run_case(state, body_i, faults):
-    store, active = build(state, BODIES[body_i])
+def run_case(state, body_i, faults, ns_i=0):
+    names = NAMESETS[ns_i]
+    store, active = build(state, BODIES[body_i], names)
     srv = refms.RefServer(store=store, active=active, version=False, faults=[(v, 0, a) for v, a in faults])
     before = dict(srv.store)
     s = wire.open_session(srv)
-    o = s.call("renamescript", "old", "new")
-    return judge(before, active, srv, o), o, srv
+    o = s.call("renamescript", names["old"], names["new"])
+    return judge(before, active, srv, o, names), o, srv
 
 
 def task(t):
@@ -107,14 +119,15 @@ def task(t):
     for state in states:
         for bi in range(len(BODIES)):
             for faults in fault_sets:
-                bad, o, srv = run_case(state, bi, faults)
+              for ns_i in (range(len(NAMESETS)) if len(faults) <= 1 else (0,)):
+                bad, o, srv = run_case(state, bi, faults, ns_i)
                 n += 1
                 distinct.add((state, faults, o.key(with_err=False), tuple(sorted(srv.store)), srv.active))
                 if bad:
                     viols.append({"property": "C14", "engine": "wire",
-                                  "signature": ["C14", "old=%s new=%s other=%s" % state, "+".join("%s@%s" % (a, v) for v, a in faults) or "no-fault", bad[0]],
+                                  "signature": ["C14", "old=%s new=%s other=%s" % state + ("/names%d" % ns_i if ns_i else ""), "+".join("%s@%s" % (a, v) for v, a in faults) or "no-fault", bad[0]],
                                   "what": "emulated rename old->new from state old=%s new=%s other=%s, faults %r: %s (outcome %s)" % (state + (faults, bad[1], o.brief())),
-                                  "case": {"state": list(state), "body_i": bi, "faults": [list(f) for f in faults]},
+                                  "case": {"state": list(state), "body_i": bi, "faults": [list(f) for f in faults], "ns_i": ns_i},
                                   "witness": "state old=%s new=%s other=%s faults=%r body=%r" % (state + (faults, BODIES[bi])), "observed": o.brief()})
                 elif sample is None and faults and o.kind == "ret":
                     sample = {"state": "old=%s new=%s other=%s" % state, "faults": repr(faults), "outcome": o.brief(), "store_after": sorted(srv.store)}
@@ -150,7 +163,7 @@ def replay(payload):
     c = payload["case"]
     if c.get("native"):
         return []
-    bad, o, srv = run_case(tuple(c["state"]), c["body_i"], tuple(tuple(f) for f in c["faults"]))
+    bad, o, srv = run_case(tuple(c["state"]), c["body_i"], tuple(tuple(f) for f in c["faults"]), c.get("ns_i", 0))
     if bad:
         sig = list(payload["signature"])
         sig[3] = bad[0]
